@@ -30,24 +30,38 @@ class V1:
             self.fp = self.field_parser()
 
     def field_parser(self):
-        """the crate-local function that both entry points hand the window to"""
-        cands = []
-        for p in (self.p_str, self.p_bytes):
+        """the crate-local fn(&str) that the text entry point hands the window to; the byte entry point must reach it too
+        (directly, or by delegating to the text entry point)"""
+        def local_callees(p):
+            out = set()
             fn = self.ctx.fx.fns[p]
-            s = set()
             for b in fn['blocks']:
                 t = b['term']
                 if t['k'] == 'call' and 'callee' in t and t['callee'].get('rlocal') and t['callee'].get('rpath') in self.ctx.fx.fns:
-                    callee = self.ctx.fx.fns[t['callee']['rpath']]
-                    if callee['arg_count'] == 1 and strip(callee['inputs'][0]) == '&str' and not callee.get('impl_derived') and callee['kind'] == 'Fn':
-                        s.add(t['callee']['rpath'])
-            cands.append(s)
-        common = cands[0] & cands[1]
-        if len(common) != 1:
+                    out.add(t['callee']['rpath'])
+            return out
+
+        def is_fp(path):
+            c = self.ctx.fx.fns[path]
+            return c['arg_count'] == 1 and strip(c['inputs'][0]) == '&str' and not c.get('impl_derived') and c['kind'] == 'Fn'
+        direct = {c for c in local_callees(self.p_str) if is_fp(c)}
+        if len(direct) != 1:
             self.R.violation('v1.anchor', 'field-parser', 'anchor-missing',
-                             note='expected exactly one crate-local fn(&str) called by both v1 TryFrom impls, found %s' % sorted(common))
+                             note='expected exactly one crate-local fn(&str) called by the v1 TryFrom<&str> impl, found %s' % sorted(direct))
             return None
-        return next(iter(common))
+        fp = next(iter(direct))
+        # reachability from the byte entry point (bounded closure over local callees)
+        seen, work = set(), [self.p_bytes]
+        while work:
+            x = work.pop()
+            if x in seen:
+                continue
+            seen.add(x)
+            work.extend(local_callees(x))
+        if fp not in seen:
+            self.R.violation('v1.anchor', 'field-parser', 'anchor-missing', note='the v1 TryFrom<&[u8]> impl never reaches the field parser %s' % fp)
+            return None
+        return fp
 
     def window_outs(self, which):
         p = self.p_str if which == 'str' else self.p_bytes
